@@ -122,12 +122,12 @@ func berInt(b []byte) int64 {
 // ---------------------------------------------------------------- CHF record
 
 type cdrContainer struct {
-	RG    int64
-	Seq   int64
-	Vol   int64
-	Up    int64
-	Down  int64
-	SSU   int64
+	RG     int64
+	Seq    int64
+	Vol    int64
+	Up     int64
+	Down   int64
+	SSU    int64
 	HasSeq bool
 }
 
